@@ -26,7 +26,7 @@ def main():
         print(out); sys.exit(2)
     res = {"patch": patch, "checks": {}}
     try:
-        rc, out = sh(["git", "apply", patch], cwd=wt)
+        rc, out = sh("git apply %s || git apply -3 %s || patch -p1 -F3 < %s" % (patch, patch, patch), cwd=wt)
         if rc != 0:
             print("PATCH DOES NOT APPLY:", out); res["applies"] = False; return res
         res["applies"] = True
@@ -45,7 +45,8 @@ def main():
                          env=dict(env, VERIF_REPO=wt), timeout=7200)
             last = [l for l in out.splitlines() if l.startswith(("VIOLATION", "OK ", "KNOWN-FINDING"))]
             res["checks"][p] = {"rc": rc, "lines": last, "wall_s": round(time.time() - t0, 1)}
-            print(p, "rc=%d" % rc, " | ".join(last)[:300])
+            viol = [l for l in last if l.startswith("VIOLATION")]
+            print(p, "rc=%d" % rc, " | ".join(viol + [l[:80] for l in last if not l.startswith("VIOLATION")])[:400])
     finally:
         sh(["git", "-C", "/repo", "worktree", "remove", "--force", wt])
         shutil.rmtree(wt, ignore_errors=True)
